@@ -17,7 +17,9 @@ BOBJ := $(patsubst $(REPO)/src/%.cpp,$(B)/mc/%.o,$(BSRC))
 MCH := $(patsubst /verif/harness/%.cpp,%,$(wildcard /verif/harness/mc_*.cpp)) litmus
 
 .PHONY: setup rt mc-objs all-mc
-setup: rt $(B)/litmus
+ALLMC := $(patsubst /verif/harness/%.cpp,$(B)/%,$(wildcard /verif/harness/mc_*.cpp))
+ALLSQ := $(patsubst /verif/harness/%.cpp,$(B)/%,$(wildcard /verif/harness/sq_*.cpp))
+setup: rt $(B)/litmus $(ALLMC) $(ALLSQ)
 	python3 /verif/check selftest
 
 rt: $(B)/bbmc_rt.o
